@@ -352,7 +352,7 @@ func (t *Uint64Tree) Delete(key uint64) {
 	t.root.lock()
 	defer t.root.unlock()
 
-	if !t.root.deleteKey(t.order, key) || t.root.count() > 1 {
+	if !t.root.deleteKey(t.order>>1, key) || t.root.count() > 1 {
 		// Root is only too small when fewer than 2 children
 		return
 	}
